@@ -147,7 +147,7 @@ func (c *component) Index(i int) Component {
 	if !ok {
 		return errorf("not array type")
 	}
-	if int64(i) >= a.Len() {
+	if i < 0 || int64(i) >= a.Len() {
 		return errorf("array index out of bounds")
 	}
 	// Reference: https://github.com/golang/tools/blob/bcd4e47d02889ebbc25c9f4bf3d27e4124b0bf9d/go/analysis/passes/asmdecl/asmdecl.go#L482-L494
